@@ -565,6 +565,60 @@ def check_conjugation(ctx, rep, qual: str, setup_meth: str, use_meth: str):
     rep.check('C04.E', f"{key}::exp-of-eigenvalues-times-t", okD, W, None, f"{cls.name}.{use_meth}: the middle factor must be diag(exp(eigenvalues · branch lengths))")
 
 
+AUDITED_P_T = {
+    # class -> which rule audits its p_t (every p_t of the package must be listed: a new implementation is reported, not silently trusted)
+    'SubstitutionModel': 'abstract declaration',
+    'AbstractSubstitutionModel': 'abstract',
+    'SymmetricSubstitutionModel': 'C04.E conjugation',
+    'NonSymmetricSubstitutionModel': 'C04.E matrix_exp',
+    'JC69': 'C04.J closed form',
+    'GeneralJC69': 'C04.J closed form',
+    'EmpiricalSubstitutionModel': 'C04.E conjugation (precomputed)',
+}
+
+
+def check_p_t_inventory(ctx, rep):
+    n = 0
+    for mname, m in sorted(ctx.prog.modules.items()):
+        if not mname.startswith('torchtree.evolution.substitution_model'):
+            continue
+        for cname, cnode in m.classes.items():
+            for fn in [b for b in cnode.body if isinstance(b, ast.FunctionDef) and b.name == 'p_t']:
+                n += 1
+                key = f"{cname}.p_t::audited-implementation"
+                is_abstract = any((dotted_name(d) or '').endswith('abstractmethod') for d in fn.decorator_list)
+                if cname in AUDITED_P_T or is_abstract:
+                    rep.ok('C04.E', key, where(m, fn), {'audited_by': AUDITED_P_T[cname]})
+                else:
+                    rep.incomplete('C04.E', key, where(m, fn), f"{cname}.p_t is a transition-probability implementation none of the rules audits (the audited ones are "
+                                  f"{sorted(AUDITED_P_T)}): its agreement with exp(Q·t) of the class's own q() is not decided")
+    if n < 5:
+        raise AnalysisError(f"only {n} p_t implementations found")
+    # eigen(): decomposes exactly the matrix it is given
+    for mname, m in sorted(ctx.prog.modules.items()):
+        if not mname.startswith('torchtree.evolution.substitution_model'):
+            continue
+        for cname, cnode in m.classes.items():
+            for fn in [b for b in cnode.body if isinstance(b, ast.FunctionDef) and b.name == 'eigen']:
+                arg = fn.args.args[1].arg if len(fn.args.args) > 1 else None
+                rets = [r for r in ast.walk(fn) if isinstance(r, ast.Return) and r.value is not None]
+                key = f"{cname}.eigen::decomposes-its-argument-unchanged"
+                verdict = None
+                why = ''
+                if len(rets) == 1 and isinstance(rets[0].value, ast.Call) and (dotted_name(rets[0].value.func) or '').split('.')[-1] in ('eigh', 'eig', 'eigvalsh', 'eigvals') \
+                        and rets[0].value.args:
+                    a0 = rets[0].value.args[0]
+                    if isinstance(a0, ast.Name) and a0.id == arg and len([st for st in fn.body if not (isinstance(st, ast.Expr) and isinstance(st.value, ast.Constant))]) == 1:
+                        verdict = True
+                    elif any(isinstance(x, ast.Name) and x.id == arg for x in ast.walk(a0)) and not (isinstance(a0, ast.Name)):
+                        verdict = False
+                        why = f"{cname}.eigen decomposes `{ast.unparse(a0)[:60]}` instead of the matrix it is given: the reconstructed P(t) is exp of a different generator (rows no longer sum to one)"
+                if verdict is None:
+                    rep.undecided('C04.E', key, where(m, fn), 'eigen() not a single return of eigh/eig of its argument')
+                else:
+                    rep.check('C04.E', key, verdict, where(m, fn), None, why)
+
+
 def run(ctx, rep):
     rep.explanation = (
         "Literal rate matrices (HKY, GTR, JC69) are turned into polynomials over π, κ, r and checked as identities: rows sum to zero, "
@@ -593,6 +647,7 @@ def run(ctx, rep):
         ('C04.N', lambda: check_norm_and_ptn(ctx, rep)),
         ('C04.E', lambda: check_conjugation(ctx, rep, f"{ABS}.SymmetricSubstitutionModel", 'p_t', 'p_t')),
         ('C04.E', lambda: check_conjugation(ctx, rep, f"{GEN}.EmpiricalSubstitutionModel", '__init__', 'p_t')),
+        ('C04.E', lambda: check_p_t_inventory(ctx, rep)),
     ]
     for i, (rule, f) in enumerate(steps):
         try:
